@@ -21,7 +21,15 @@ use lv_core::*;
 use serde::{Deserialize, Serialize};
 use serde_json::{Value, json};
 use std::future::IntoFuture;
+use std::sync::atomic::{AtomicU64, Ordering};
 use std::time::Duration;
+
+// per-call outcome counters (counted in exploration runs only, not in sample/replay re-runs)
+static CALLS_OK_FIRST: AtomicU64 = AtomicU64::new(0);
+static CALLS_OK_AFTER_FAILOVER: AtomicU64 = AtomicU64::new(0);
+static CALLS_ALL_ENDPOINTS_FAILED: AtomicU64 = AtomicU64::new(0);
+static CALLS_NON_NETWORK_ERROR: AtomicU64 = AtomicU64::new(0);
+static EXECS_NONTRIVIAL: AtomicU64 = AtomicU64::new(0);
 
 #[path = "../shared/fake_node.rs"]
 mod fake_node;
@@ -392,19 +400,28 @@ fn run(cfg: &Config, prefix: &[u32], keep: bool) -> Exec {
                 .map(|t| format!("{}:{:?}=>{:?}", t.path_idx, brief(&t.attempts), t.result))
                 .collect();
             let obs = fnv64(desc.join("|").as_bytes());
-            // class: pattern of results over the non-probe calls
-            let mut class = String::new();
+            // class: the set of per-call outcomes seen among the non-probe calls
             let upto = traces.len().saturating_sub(1);
+            let mut letters: Vec<char> = vec![];
             for t in &traces[..upto] {
-                class.push(match (&t.result, t.attempts.len()) {
-                    (Some(CallRes::Ok(_)), 1) => 'o',
-                    (Some(CallRes::Ok(_)), _) => 'f', // succeeded after fail-over
-                    (Some(CallRes::Status(..)), l) if l == cfg.n && t.attempts.iter().all(|a| a.kind.class == Class::Net) => 'x', // all failed
-                    (Some(CallRes::Status(..)), _) => 'e', // non-network error
-                    _ => '?',
-                });
+                let (c, ctr) = match (&t.result, t.attempts.len()) {
+                    (Some(CallRes::Ok(_)), 1) => ('o', Some(&CALLS_OK_FIRST)),
+                    (Some(CallRes::Ok(_)), _) => ('f', Some(&CALLS_OK_AFTER_FAILOVER)),
+                    (Some(CallRes::Status(..)), l) if l == cfg.n && t.attempts.iter().all(|a| a.kind.class == Class::Net) => ('x', Some(&CALLS_ALL_ENDPOINTS_FAILED)),
+                    (Some(CallRes::Status(..)), _) => ('e', Some(&CALLS_NON_NETWORK_ERROR)),
+                    _ => ('?', None),
+                };
+                letters.push(c);
+                if let (Some(ctr), false) = (ctr, keep) {
+                    ctr.fetch_add(1, Ordering::Relaxed);
+                }
             }
-            let class = format!("results:{class}");
+            if !keep && traces[..upto].iter().any(|t| t.attempts.iter().any(|a| a.kind.class != Class::Ok)) {
+                EXECS_NONTRIVIAL.fetch_add(1, Ordering::Relaxed);
+            }
+            letters.sort();
+            letters.dedup();
+            let class = format!("exec:{}", letters.into_iter().collect::<String>());
             Exec::from_chooser(ch, class, obs, viol, events)
         }
     }
@@ -466,9 +483,9 @@ fn main() {
             cfgs.push(Config { n, seq_calls: 2, conc_calls: 0, full_menu: true, bound: big });
         }
         for n in 1..=4 {
-            cfgs.push(Config { n, seq_calls: 3, conc_calls: 0, full_menu: true, bound: if q { 2 } else { 3 } });
+            cfgs.push(Config { n, seq_calls: 3, conc_calls: 0, full_menu: true, bound: if q { 3 } else { 4 } });
         }
-        for n in 1..=(if q { 3 } else { 4 }) {
+        for n in 1..=4 {
             cfgs.push(Config { n, seq_calls: 1, conc_calls: 2, full_menu: false, bound: big });
         }
         for n in 2..=3 {
@@ -489,17 +506,31 @@ fn main() {
             }
         }
     }
+    if ctx.replay.is_none() {
+        for (name, ctr) in [
+            ("call:ok-at-first-endpoint", &CALLS_OK_FIRST),
+            ("call:ok-after-failover", &CALLS_OK_AFTER_FAILOVER),
+            ("call:error-all-endpoints-failed", &CALLS_ALL_ENDPOINTS_FAILED),
+            ("call:error-non-network", &CALLS_NON_NETWORK_ERROR),
+        ] {
+            let v = ctr.load(Ordering::Relaxed);
+            if v > 0 {
+                rep.classes.insert(name.to_string(), v);
+            }
+        }
+        rep.extra("distinct_nontrivial_by_construction", json!(EXECS_NONTRIVIAL.load(Ordering::Relaxed)));
+    }
     finish(
         &ctx,
         rep,
         Spec {
-            rule: "executions of the real GrpcClient over N fake endpoints; choice points = which outstanding request to answer (concurrent phase) and the answer kind per (call, endpoint) attempt; configurations (see `configs`): sequential 3 calls, class menu {ok, unavailable, invalid-argument}, N=1..4, every assignment; sequential 2 calls, full menu (ok, 5 network kinds incl. transport error, 6 non-network kinds incl. undecodable message), N=1..2 (quick) / 1..3 (thorough), every assignment; sequential 3 calls, full menu, N=1..4, <=2 (quick) / <=3 (thorough) non-default answers; 2 concurrent calls with every interleaving of their responses + 1 follow-up call, class menu, N=1..3 (quick) / 1..4 (thorough), every assignment; 3 concurrent calls, N=2..3, <=4 deviations (quick) / every assignment (thorough); 2 concurrent calls full menu N=2..4 <=2/<=3 deviations; every execution ends with a probe call in which every endpoint fails.  evaluation = one execution; state = distinct observation trace (attempted endpoints, answers, results); transition = one answered request",
+            rule: "executions of the real GrpcClient over N fake endpoints; choice points = which outstanding request to answer (concurrent phase) and the answer kind per (call, endpoint) attempt; configurations (see `configs`): sequential 3 calls, class menu {ok, unavailable, invalid-argument}, N=1..4, every assignment; sequential 2 calls, full menu (ok, 5 network kinds incl. transport error, 6 non-network kinds incl. undecodable message), N=1..2 (quick) / 1..3 (thorough), every assignment; sequential 3 calls, full menu, N=1..4, <=3 (quick) / <=4 (thorough) non-default answers; 2 concurrent calls with every interleaving of their responses + 1 follow-up call, class menu, N=1..4, every assignment; 3 concurrent calls, N=2..3, <=4 deviations (quick) / every assignment (thorough); 2 concurrent calls full menu N=2..4 <=2/<=3 deviations; every execution ends with a probe call in which every endpoint fails.  evaluation = one execution (distinct choice sequence of its configuration); non-trivial = at least one non-ok answer; state = distinct observation trace (attempted endpoints, answers, results); transition = one answered request; classes `exec:<set>` = set of per-call outcomes in an execution (o ok at first endpoint, f ok after fail-over, x all endpoints failed, e non-network error), `call:*` = per-call totals",
             assumptions: &[
                 "network-class errors are the gRPC codes Unavailable, Unknown, DeadlineExceeded, Aborted and failures of the transport itself (the crate's documented classification); every other status and an undecodable response message are non-network errors",
                 "under concurrent calls 'the endpoint that succeeds becomes the first one tried next' is read as: the first endpoint tried by the next call is one of the endpoints that succeeded in the concurrent batch",
                 "the order in which the remaining endpoints are tried is not constrained by the statement and is not checked",
             ],
-            required_classes: &["results:o*", "results:f*", "results:x*", "results:e*"],
+            required_classes: &["call:ok-at-first-endpoint", "call:ok-after-failover", "call:error-all-endpoints-failed", "call:error-non-network"],
             exhaustive: true,
         },
     );
